@@ -740,6 +740,14 @@ func main() {
 		"runs_per_family": perKind,
 		"worker_crashes":  crashes,
 	}
+	// connection-level stage: pipelines through the real connection handler with the parser goroutine
+	// running ahead of it, under the interleaving explorer (engines/concmc, handle.go)
+	if sum, ran, err := rep.ConcStage("C02"); err != nil {
+		fmt.Fprintln(os.Stderr, "respmc:", err)
+		os.Exit(2)
+	} else if ran {
+		cov["concurrent_stage"] = sum
+	}
 	os.Exit(rep.Finish(cov, []string{"the in-memory connection delivers exactly the scripted chunks; TCP-level behaviour of the built binary is not exercised"}))
 }
 
